@@ -107,6 +107,16 @@ Qed.
 
 End SetList.
 
+Lemma NoDup_app_disjoint {A} (l1 l2:list A) :
+  NoDup l1 -> NoDup l2 -> (forall x, In x l1 -> In x l2 -> False) -> NoDup (l1 ++ l2).
+Proof.
+  induction l1 as [|a l1 IH]; simpl; intros H1 H2 Hd; auto.
+  inversion H1 as [|? ? Ha Hl]; subst. constructor.
+  - rewrite in_app_iff. intros [H|H]; [auto|]. apply (Hd a); auto.
+  - apply IH; auto. intros x Hx1 Hx2. apply (Hd x); auto.
+Qed.
+
+
 Arguments mem_In {A eqb} eqb_spec.
 Arguments mem_false {A eqb} eqb_spec.
 Arguments In_add {A eqb} eqb_spec.
